@@ -157,7 +157,25 @@ def execute(ctx):
         if not idle and not st.get('probing'):
             st['raced'] = True
             ctx.probe('link torn down while the dispatcher was mid-dispatch')
+        tick[0] += 1
+        st['td_start'] = tick[0]
     w.on_link_close = on_close
+    tick = [0]
+    dispatch_begins = []
+
+    def on_dispatch_begin(pk):
+        tick[0] += 1
+        dispatch_begins.append(tick[0])
+
+    def on_teardown_end(*a):
+        # the dispatcher also races the tear-down when it takes a packet that was already queued after the driver was
+        # closed but before the library forgot the link and ran its disconnect handlers
+        tick[0] += 1
+        t0 = st.get('td_start')
+        if t0 is not None and not st.get('probing') and any(t0 < b < tick[0] for b in dispatch_begins):
+            if not st.get('raced'):
+                ctx.probe('dispatch began between driver close and the end of the disconnect handlers')
+            st['raced'] = True
     w.dupable = lambda header, data: ((header >> 4) & 0xF) == 4 and (header & 3) in (1, 2)
     w.delay_range = (1.05, 1.6)
     dev.mem_fault = lambda kind, mid, addr: (5 if ctx.faults.flag('mem_err') else 0)
@@ -185,6 +203,10 @@ def execute(ctx):
 
         def wr_fail(mem, addr):
             complete('w', mem.id, addr, 'fail', None)
+        if not st.get('teardown_probe_installed'):
+            cf.packet_received.callbacks.insert(0, on_dispatch_begin)
+            cf.disconnected.add_callback(on_teardown_end)
+            st['teardown_probe_installed'] = True
         cf.mem.mem_read_cb.add_callback(rd_ok)
         cf.mem.mem_read_failed_cb.add_callback(rd_fail)
         cf.mem.mem_write_cb.add_callback(wr_ok)
